@@ -132,6 +132,19 @@ theorem core_iff_touches (set : List Raw) (wf : WF set) (t : TxV) : (core set t)
                   rw [hd] at h5
                   exact h5 ((isBlockedRaw_iff set wf _).mpr hr)
 
+/-- every `user.evm.<name>` executor is an EVM executor, whatever the name. -/
+theorem realExec_user_evm (name : List Char) : realExecName ("user.evm.".toList ++ name) = "evm".toList := by
+  simp [realExecName, paraExecName, List.isPrefixOf, List.takeWhile]
+
+/-- the executor shapes that are / are not EVM (what `GetRealExecName` answers; the last six merely contain or end in
+"evm"). -/
+example :
+    (["evm", "user.evm.abc", "user.evm", "user.p.tt.evm", "user.p.tt.user.evm.x"].map fun e => realExecName e.toList == "evm".toList) =
+      [true, true, true, true, true] ∧
+    (["xevm", "user.evmx", "user.p.tt.notevm", "user.write.evm", "user..evm", "user.p.evm", "user.p.tt."].map
+      fun e => realExecName e.toList == "evm".toList) = [false, false, false, false, false, false, false] := by
+  decide
+
 /-- **every spelling is treated alike**: the verdict on a text only depends on the account it denotes. -/
 theorem spelling_invariant (set : List Raw) (s s' : List Char) (h : parse s = parse s') :
     isBlocked set s = isBlocked set s' := by
@@ -208,8 +221,8 @@ theorem exec_ok_not_blocked (set : List Raw) (wf : WF set) (item : Item) (i : Na
       | succ n => simp at ht
 
 /-- non-vacuity: a group passes when nobody is listed, and is rejected as a whole when one member is. -/
-def exClean : TxV := { sender := "0x1111111111111111111111111111111111111111".toList, to := "0x2222222222222222222222222222222222222222".toList, realTo := "0x2222222222222222222222222222222222222222".toList, evm := none }
-def exDirty : TxV := { sender := "0x1111111111111111111111111111111111111111".toList, to := "0X742D35cc6634c0532925a3b844bc9e7595f0beb0".toList, realTo := "0X742D35cc6634c0532925a3b844bc9e7595f0beb0".toList, evm := none }
+def exClean : TxV := { sender := "0x1111111111111111111111111111111111111111".toList, to := "0x2222222222222222222222222222222222222222".toList, realTo := "0x2222222222222222222222222222222222222222".toList, execer := "coins".toList, payload := none }
+def exDirty : TxV := { sender := "0x1111111111111111111111111111111111111111".toList, to := "0X742D35cc6634c0532925a3b844bc9e7595f0beb0".toList, realTo := "0X742D35cc6634c0532925a3b844bc9e7595f0beb0".toList, execer := "coins".toList, payload := none }
 example :
     (mkSet ["742d35cc6634c0532925a3b844bc9e7595f0beb0".toList]).map (fun set =>
       (execItem true set (.group [(exClean, .ok), (exClean, .pack)]), execItem true set (.group [(exClean, .ok), (exDirty, .ok)]),
@@ -269,9 +282,9 @@ theorem pool_rejects_always (set : List Raw) (wf : WF set) (ts : List PoolTx) (b
   exact ⟨fun x => hno (Or.inl x), fun t ht x => hno (Or.inr ⟨t, ht, x⟩)⟩
 
 /-- non-vacuity: a clean proxy-exec submission is accepted, one whose inner recipient is listed is blocked. -/
-def exOuter : TxV := { sender := "0x1111111111111111111111111111111111111111".toList, to := "0x0000000000000000000000000000000000200005".toList, realTo := "0x0000000000000000000000000000000000200005".toList, evm := none }
-def exInnerClean : TxV := { sender := "0x1111111111111111111111111111111111111111".toList, to := "0x2222222222222222222222222222222222222222".toList, realTo := "0x2222222222222222222222222222222222222222".toList, evm := none }
-def exInnerDirty : TxV := { sender := "0x1111111111111111111111111111111111111111".toList, to := "0x0707070707070707070707070707070707070707".toList, realTo := "0x0707070707070707070707070707070707070707".toList, evm := none }
+def exOuter : TxV := { sender := "0x1111111111111111111111111111111111111111".toList, to := "0x0000000000000000000000000000000000200005".toList, realTo := "0x0000000000000000000000000000000000200005".toList, execer := "coins".toList, payload := none }
+def exInnerClean : TxV := { sender := "0x1111111111111111111111111111111111111111".toList, to := "0x2222222222222222222222222222222222222222".toList, realTo := "0x2222222222222222222222222222222222222222".toList, execer := "coins".toList, payload := none }
+def exInnerDirty : TxV := { sender := "0x1111111111111111111111111111111111111111".toList, to := "0x0707070707070707070707070707070707070707".toList, realTo := "0x0707070707070707070707070707070707070707".toList, execer := "coins".toList, payload := none }
 example :
     poolSubmit [List.replicate 20 (7 : UInt8)] [{ outer := exOuter, addrOk := true, inner := some exInnerClean }] true .accepted = .accepted ∧
     poolSubmit [List.replicate 20 (7 : UInt8)] [{ outer := exOuter, addrOk := true, inner := some exInnerDirty }] true .accepted = .blocked := by
